@@ -57,6 +57,35 @@ CLAIMS["C05"] = (
     "Assumes stdlib list/deque semantics; a traversal rewritten outside the worklist idiom is reported as analysis-incomplete (exit 2), never as a pass.",
     "DESIGN.md §3 C05",
 )
+CLAIMS["C02"] = (
+    "decision tree of _eq_fn over comparison atoms with the position loop abstracted after a full-traversal check; installation, hash-dependence and origin-equality scans",
+    "The decision tree of _eq_fn is enumerated over its atoms: it returns True exactly on class identity AND equal content_id AND equal root origin "
+    "AND equal origins at every position, the position loop zipping full traversals (dfs/bfs without prune/filter) of both operands and comparing "
+    "origins by value; only the class of `other` is read before the class test; __eq__/__hash__ are installed on every subclass, no __ne__ by hand; "
+    "hash depends on id only and id is written only under construction; origin classes use generated equality. Every atom is the same projection on "
+    "both operands, so the relation is an equivalence. CPython's dataclass decorator keeping the installed __eq__ is assumed.",
+    "Assumes dataclasses keeps __eq__/__hash__ set by __init_subclass__; content_id equality implies equal shape (C01).",
+    "DESIGN.md §3 C02",
+)
+CLAIMS["C03"] = (
+    "ownership / typestate analysis of the registry: who-may-mutate over the whole package, identity-guard dominance, freshness dataflow, pop/restore pairing with exceptional edges, full-traversal detach, id digest dependence, decision tree of get",
+    "Every mutation of NODE_REGISTRY is located (all modules) and must be in one of four owner functions; the initialiser is a WeakValueDictionary and no "
+    "strong library container receives a node; every removal keyed by X.id is dominated by `entry is X`; every stored key carries a freshness proof on "
+    "every path; in replace every exceptional exit after the unregister passes the restore and the success path does not; detach iterates a full traversal; "
+    "the id digest input is deterministic; get's decision tree equals the specified table. These are necessary conditions on all code paths; registry "
+    "contents along histories and GC behaviour are not decided by static analysis.",
+    "Assumes WeakValueDictionary semantics; constructing calls between a freshness proof and the store do not claim that key.",
+    "DESIGN.md §3 C03",
+)
+CLAIMS["C14"] = (
+    "must-pass-through analysis of duplicate (decision tree per child field), form of replace, pop/restore pairing dataflow shared with C03",
+    "In duplicate every value stored for a child field derives from the original only through .duplicate() (single nodes and each tuple element; both kinds "
+    "have a storing path) and the result is dataclasses.replace(self, **changes); replace unregisters first, constructs through dataclasses.replace(self, **kwargs), "
+    "restores the entry on every exceptional exit and only then; removals are identity guarded. Decides independence/faithfulness structurally for every tree; "
+    "which id results is history dependent and not decided.",
+    "Assumes dataclasses.replace semantics (re-runs __init__ with current init-field values).",
+    "DESIGN.md §3 C14",
+)
 PENDING = "check not built yet (work in progress; see DESIGN.md for the planned static rules)"
 
 checks = []
